@@ -2,7 +2,7 @@ import MxModel.Proofs.PathCodec
 import MxModel.Proofs.DocQuote
 import MxModel.Kernels.Dispatch
 import MxModel.Proofs.SaveFiles
-import MxModel.Proofs.SerialMain
+import MxModel.Proofs.SerialOrder
 /-!
 # C04 – Write/read round trip: the two codecs the serializer relies on
 
@@ -648,6 +648,16 @@ theorem relref_override_order_full_statement_fails :
     (by decide +kernel) (by decide +kernel) (by decide +kernel)) (by decide +kernel)
 example : ¬ NoRelRefOverrideOrder exRelRef := by decide +kernel
 example : Serial.read (Serial.write exRelRef) = .error .relRefConflict := by decide +kernel
+
+/-- a closed form that implies `NoRefOverrideOrder`, whatever the order of the spaces in the tree: along the
+lineage of every space (the space and its bases) every reference name has at most one definer -/
+theorem no_ref_twice_in_lineage_suffices (m : MDesc) (hkeys : (refKeys m).Nodup)
+    (h : noRefTwiceInLineage m = true) : NoRefOverrideOrder m :=
+  refsPass_of_noRefTwice m hkeys h [] (refDefs m) rfl
+example : (refKeys exModel).Nodup ∧ noRefTwiceInLineage exModel = true := by decide +kernel
+example : NoRefOverrideOrder exModel := no_ref_twice_in_lineage_suffices exModel (by decide +kernel) (by decide +kernel)
+/-- the witness of the finding has two definers of `k` in the lineage of `A` -/
+example : noRefTwiceInLineage exRefOverride = false := by decide +kernel
 
 /-- the full statement (no hypothesis beyond well-formedness) is false -/
 theorem read_write_round_trip_full_statement_fails :
